@@ -8,6 +8,9 @@ for f in sorted(glob.glob(os.path.join(root, "manifest.d", "C*.json"))):
     d = json.load(open(f))
     frags[d["property_id"]] = d
 na_reasons = json.load(open(os.path.join(root, "manifest.d", "not_applicable.json"))) if os.path.exists(os.path.join(root, "manifest.d", "not_applicable.json")) else {}
+DRIVER_OF = {"C11": "driver_c01"}
+def targets_of(pid):
+    return [f"CashewsVerif.Props.{pid}", DRIVER_OF.get(pid, "driver_" + pid.lower())]
 checks = []
 for p in props:
     if p["id"] in frags:
@@ -20,7 +23,7 @@ for p in props:
         checks.append(d)
 m = {
     "version": 1,
-    "setup_cmd": "cd lean && lake build",
+    "setup_cmd": "cd lean && lake build " + " ".join(sorted(set(t for c in checks for t in targets_of(c["property_id"])))),
     "hooks": {
         "guard": "KRUKOV_CASHEWS_VERIF",
         "enable": "none needed: no source hooks were added to /repo; the harness instruments by subclassing and module patching (./check exports KRUKOV_CASHEWS_VERIF=1 anyway)",
